@@ -74,6 +74,36 @@ fn args_from(kinds: &[String], ins: &[String]) -> Args {
                 a.bt = match v.as_str() {
                     "empty" => BlockType::Empty,
                     "i64" => BlockType::Type(DataType::I64),
+                    "I32" => BlockType::Type(DataType::I32),
+                    "F32" => BlockType::Type(DataType::F32),
+                    "F64" => BlockType::Type(DataType::F64),
+                    "V128" => BlockType::Type(DataType::V128),
+                    "FuncRef" => BlockType::Type(DataType::FuncRef),
+                    "FuncRefNull" => BlockType::Type(DataType::FuncRefNull),
+                    "ExternRef" => BlockType::Type(DataType::ExternRef),
+                    "ExternRefNull" => BlockType::Type(DataType::ExternRefNull),
+                    "Any" => BlockType::Type(DataType::Any),
+                    "AnyNull" => BlockType::Type(DataType::AnyNull),
+                    "None" => BlockType::Type(DataType::None),
+                    "NoneNull" => BlockType::Type(DataType::NoneNull),
+                    "NoExtern" => BlockType::Type(DataType::NoExtern),
+                    "NoExternNull" => BlockType::Type(DataType::NoExternNull),
+                    "NoFunc" => BlockType::Type(DataType::NoFunc),
+                    "NoFuncNull" => BlockType::Type(DataType::NoFuncNull),
+                    "Eq" => BlockType::Type(DataType::Eq),
+                    "EqNull" => BlockType::Type(DataType::EqNull),
+                    "Struct" => BlockType::Type(DataType::Struct),
+                    "StructNull" => BlockType::Type(DataType::StructNull),
+                    "Array" => BlockType::Type(DataType::Array),
+                    "ArrayNull" => BlockType::Type(DataType::ArrayNull),
+                    "I31" => BlockType::Type(DataType::I31),
+                    "I31Null" => BlockType::Type(DataType::I31Null),
+                    "Exn" => BlockType::Type(DataType::Exn),
+                    "NoExn" => BlockType::Type(DataType::NoExn),
+                    "Cont" => BlockType::Type(DataType::Cont),
+                    "NoCont" => BlockType::Type(DataType::NoCont),
+                    "Module2" => BlockType::Type(DataType::Module { ty_id: 2, nullable: false }),
+                    "Module2Null" => BlockType::Type(DataType::Module { ty_id: 2, nullable: true }),
                     _ => BlockType::FuncType(wirm::ir::id::TypeID(2)),
                 }
             }
